@@ -282,6 +282,9 @@ class Gen:
             else:
                 fb = [mk("rtcrtpparameters.RTCRtcpFeedback", type="nack"), mk("rtcrtpparameters.RTCRtcpFeedback", type="nack", parameter="pli"),
                       mk("rtcrtpparameters.RTCRtcpFeedback", type="goog-remb")]
+                if o.get("fb_multi"):
+                    # RFC 5104: a feedback parameter may itself contain blanks
+                    fb.append(mk("rtcrtpparameters.RTCRtcpFeedback", type="ccm", parameter="tmmbr smaxpr=120"))
                 codecs = [
                     mk("rtcrtpparameters.RTCRtpCodecParameters", mimeType="video/VP8", clockRate=90000, payloadType=97, rtcpFeedback=fb),
                     mk("rtcrtpparameters.RTCRtpCodecParameters", mimeType="video/rtx", clockRate=90000, payloadType=98, parameters={"apt": 97}),
@@ -308,11 +311,13 @@ class Gen:
                 if kind == "video":
                     md.ssrc.append(mk("sdp.SsrcDescription", ssrc=7654321, cname="cn-1"))
                     md.ssrc_group = [mk("sdp.GroupDescription", semantic="FID", items=[1234567, 7654321])]
+                if o.get("ssrc_sep"):
+                    md.ssrc[0].cname = "user:1 @host"  # separators of the line format inside a value
                 if o.get("ssrc_full"):
                     md.ssrc[0].msid = "stream-1 track-1"
                     md.ssrc[0].mslabel = "stream-1"
                     md.ssrc[0].label = "track-1"
-        md.rtp.muxId = mid
+        md.rtp.muxId = o.get("mid_override", mid)
         cands = o.get("cands")
         if cands is None:
             cands = [self.cand(), self.cand("srflx", ip="1.2.3.4", raddr="192.168.1.5", rport=40812)]
@@ -342,7 +347,7 @@ class Gen:
         out: List[Tuple[str, Any]] = []
         m = self.media
         out.append(("audio+video+application, everything populated",
-                    self.session([m("audio", "0", ssrc_full=True, ice_options="trickle"), m("video", "1", ice_options="trickle"), m("application", "2", ice_options="trickle")], host="0.0.0.0")))
+                    self.session([m("audio", "0", ssrc_full=True, ice_options="trickle"), m("video", "1", ice_options="trickle", fb_multi=True), m("application", "2", ice_options="trickle")], host="0.0.0.0")))
         for kind in ("audio", "video"):
             for d in ("inactive", "sendonly", "recvonly", "sendrecv"):
                 out.append((f"{kind} {d}", self.session([m(kind, "0", direction=d)])))
@@ -363,6 +368,9 @@ class Gen:
             ("fmtp: zero / empty / flag values", dict(params={"stereo": 0, "useinbandfec": 1, "x-flag": None, "x-empty": "", "cbr": "0"})),
             ("fmtp: none", dict(params={})),
             ("msid absent", dict(msid=None)),
+            ("multi-token rtcp-fb parameter", dict(fb_multi=True)),
+            ("separators inside ssrc attribute values", dict(ssrc_sep=True)),
+            ("mid containing a colon", dict(mid_override="a:1")),
         ]
         for label, o in variants:
             out.append((f"audio: {label}", self.session([m("audio", "0", **o)])))
